@@ -44,6 +44,15 @@ func genC10(t *rapid.T) *C10Case {
 		case 7:
 			add(rig.Step{Op: "in", In: g.goodLogon(g.hb)}) // rejected: a Reject is stored
 		case 8:
+			if rapid.Bool().Draw(t, "probe") {
+				// the peer stays silent until the session probes it with a TestRequest
+				// (and sends timer Heartbeats meanwhile), then answers
+				T := int64(tolT(g.hb))
+				add(rig.Step{Op: "advance", Dt: T + T/10 + 1e6})
+				add(rig.Step{Op: "in", In: g.heartbeat("")})
+				g.sent += 2
+				break
+			}
 			// one timer-driven Heartbeat, then the peer shows it is alive
 			add(rig.Step{Op: "advance", Dt: int64(g.hb)*1e9 + 1e6})
 			add(rig.Step{Op: "in", In: g.heartbeat("")})
@@ -173,6 +182,12 @@ func checkC10(c *C10Case, rec *evid.Rec) (vs []pbt.Violation) {
 	}
 	rec.Case(evid.FPs(abstract), nontrivial)
 	rec.Hist("role:" + c.Cfg.Role)
+	for _, o := range first {
+		if t, _ := rig.Decode(o).Get(rig.TagMsgType); t == rig.TTestRequest {
+			rec.Hist("prefix-holds-session-testrequest")
+			break
+		}
+	}
 	if c.Reuse {
 		rec.Hist("reused-message-object")
 	}
